@@ -257,22 +257,25 @@ def failing_call(rng, api="validate"):
 def gen_themed(rng, theme):
     ops = [("alloc", "D0", "data", DATA)]
     plain = lambda: ("call", "validate", ("slot", "D0"), ("slot", "S0"), None, {}, None)
+    # the first call over the shared objects either succeeds or fails part-way (after some results were rendered)
+    first = lambda: plain() if rng.random() < 0.5 else ("call", "validate", ("slot", "D0"), ("slot", "S0"), None, {},
+                                                        ("pyshacl.shape", "Shape.validate#%d" % rng.choice([1, 2, 3, 4])))
     maybe_fail = lambda: failing_call(rng) if rng.random() < 0.4 else []
     if theme == "stale_data":
         ops.append(("alloc", "S0", "shapes", SHAPES["bnodes"]))
-        ops.append(plain())
+        ops.append(first())
         ops += [("edit_data", rng.choice(["city", "street", "drop_addr"]), rng.randrange(1000)) for _ in range(rng.choice([1, 2, 3]))]
         ops += maybe_fail()
         ops.append(plain())
     elif theme == "stale_shapes":
         ops.append(("alloc", "S0", "shapes", SHAPES["bnodes"]))
-        ops.append(plain())
+        ops.append(first())
         ops += [("edit_shapes", rng.choice(["mincount", "datatype"]), rng.randrange(1000)) for _ in range(rng.choice([1, 2]))]
         ops += maybe_fail()
         ops.append(plain())
     elif theme == "stale_validator":
         ops.append(("alloc", "S0", "shapes", SHAPES["component"]))
-        ops.append(plain())
+        ops.append(first())
         ops += [("edit_shapes", rng.choice(["ask", "message", "limit"]), rng.randrange(1000)) for _ in range(rng.choice([1, 2]))]
         ops += maybe_fail()
         ops.append(plain())
@@ -280,7 +283,7 @@ def gen_themed(rng, theme):
         # a graph is collected and another one with the same node names is loaded, preferably at its address
         if rng.random() < 0.5:
             ops.append(("alloc", "S0", "shapes", SHAPES["component"]))
-            ops.append(plain())
+            ops.append(first())
             ops.append(("realloc", "S0", "shapes", SHAPES["component"].replace("<=", rng.choice([">=", "!=", "<"])).replace("above", "not ok against")))
         else:
             ops.append(("alloc", "S0", "shapes", SHAPES["bnodes"]))
